@@ -14,32 +14,28 @@ Theorem C07_safe_name_terminates : forall p k name,
 Proof. exact safe_name_terminates_12. Qed.
 Print Assumptions C07_safe_name_terminates.
 
-(* "the prefix contains an ASCII letter" is not enough: prefix "1a" loops on name "1" *)
-Theorem C07_safe_name_prefix_with_letter_refuted :
-  exists p name, existsb is_ascii_alpha p = true /\
-    forall fuel, safe_name fuel p (apply_case Snake) name = SFuel.
-Proof. exact safe_name_prefix_with_letter_refuted. Qed.
-Print Assumptions C07_safe_name_prefix_with_letter_refuted.
+(* Filters.__init__ now refuses a configuration whose safe prefixes fail that test (fix for
+   C07-F6; the former refutation "prefix 1a contains a letter and still diverges" is gone):
+   every naming filter of an accepted configuration terminates *)
+Theorem C07_filters_terminate : forall cv name,
+  filters_init cv = true ->
+  (exists r, class_name cv name = SOk r) /\ (exists r, field_name cv name = SOk r) /\
+  (exists r, constant_name cv name = SOk r) /\ (exists r, module_name cv name = SOk r).
+Proof. exact filters_terminate. Qed.
+Print Assumptions C07_filters_terminate.
 
 (* ---- results are identifiers ------------------------------------------------------------ *)
 (* every split_words-based convention, every prefix, every input string *)
 Theorem C07_safe_name_is_identifier : forall p k fuel name r,
   split_based k = true -> safe_name fuel p (apply_case k) name = SOk r ->
-  is_identifier r /\ (keyword r -> r = PyIdent.lit "await").
+  is_identifier r /\ ~ keyword r.
 Proof. exact safe_name_is_identifier. Qed.
 Print Assumptions C07_safe_name_is_identifier.
 
-Theorem C07_safe_name_usable : forall p k fuel name r,
-  split_based k = true -> safe_name fuel p (apply_case k) name = SOk r ->
-  r <> PyIdent.lit "await" -> usable_name r.
-Proof. exact safe_name_usable. Qed.
-Print Assumptions C07_safe_name_usable.
-
-(* "await" is a Python keyword missing from text.stop_words *)
-Theorem C07_safe_name_is_identifier_refuted :
-  exists name r, field_name default_conventions name = SOk r /\ keyword r.
-Proof. exact safe_name_is_identifier_refuted. Qed.
-Print Assumptions C07_safe_name_is_identifier_refuted.
+(* every Python keyword is reserved (text.stop_words gained `await`: fix for C07-F1) *)
+Theorem C07_keywords_reserved : forall r, is_keyword r = true -> is_reserved r = true.
+Proof. exact keyword_is_reserved. Qed.
+Print Assumptions C07_keywords_reserved.
 
 (* originalCase: guard on the non-ASCII word characters of name and prefix *)
 Theorem C07_original_case_identifier : forall p fuel name r,
@@ -52,7 +48,7 @@ Print Assumptions C07_original_case_identifier.
 Theorem C07_original_case_ascii_identifier : forall p fuel name r,
   original_guard (fun _ => false) name = true -> original_guard (fun _ => false) p = true ->
   safe_name fuel p (apply_case Original) name = SOk r ->
-  is_identifier r /\ (keyword r -> r = PyIdent.lit "await").
+  is_identifier r /\ ~ keyword r.
 Proof. exact safe_name_original_ascii. Qed.
 Print Assumptions C07_original_case_ascii_identifier.
 
@@ -74,38 +70,37 @@ Theorem C07_unique_name_fresh : forall name reserved,
 Proof. exact unique_name_fresh. Qed.
 Print Assumptions C07_unique_name_fresh.
 
+(* unconditional since the by-preference rename goes through unique_name (fix for C07-F2) *)
 Theorem C07_rename_slugs_distinct : forall l,
-  snd (rename_checked l) = true -> NoDup (map a_slug (rename_duplicate_attributes l)).
+  NoDup (map a_slug (rename_duplicate_attributes l)).
 Proof. exact rename_slugs_distinct. Qed.
 Print Assumptions C07_rename_slugs_distinct.
 
 Theorem C07_fields_distinct_after_rename : forall p k l,
   prefix_ok p = true ->
-  snd (rename_checked l) = true ->
   adjust_fresh p k (map a_name (rename_duplicate_attributes l)) = true ->
   NoDup (map (fun a => final_name p k (a_name a)) (rename_duplicate_attributes l)).
 Proof. exact fields_distinct_after_rename. Qed.
 Print Assumptions C07_fields_distinct_after_rename.
 
-Theorem C07_fields_distinct_preference_refuted :
-  ~ NoDup (fields_of witness_preference) /\ snd (rename_checked witness_preference) = false.
-Proof. exact fields_distinct_preference_refuted. Qed.
-Print Assumptions C07_fields_distinct_preference_refuted.
+Example C07_preference_witness_now_distinct :
+  fields_of witness_preference = map SOk [Safe.lit "a"; Safe.lit "a_attribute_1"; Safe.lit "a_attribute"].
+Proof. exact preference_witness_now_distinct. Qed.
+Print Assumptions C07_preference_witness_now_distinct.
 
 Theorem C07_fields_distinct_safe_prefix_refuted :
-  ~ NoDup (fields_of witness_prefix) /\ snd (rename_checked witness_prefix) = true /\
+  ~ NoDup (fields_of witness_prefix) /\
   adjust_fresh conv_field_name_prefix Snake (map a_name (rename_duplicate_attributes witness_prefix)) = false.
 Proof. exact fields_distinct_safe_prefix_refuted. Qed.
 Print Assumptions C07_fields_distinct_safe_prefix_refuted.
 
 Theorem C07_fields_distinct_reserved_suffix_refuted :
-  ~ NoDup (fields_of witness_suffix) /\ snd (rename_checked witness_suffix) = true /\
+  ~ NoDup (fields_of witness_suffix) /\
   adjust_fresh conv_field_name_prefix Snake (map a_name (rename_duplicate_attributes witness_suffix)) = false.
 Proof. exact fields_distinct_reserved_suffix_refuted. Qed.
 Print Assumptions C07_fields_distinct_reserved_suffix_refuted.
 
 Example C07_guards_nonvacuous :
-  snd (rename_checked example_ok) = true /\
   adjust_fresh conv_field_name_prefix Snake (map a_name (rename_duplicate_attributes example_ok)) = true /\
   fields_of example_ok = map SOk [Safe.lit "a"; Safe.lit "a_1"; Safe.lit "a_2"; Safe.lit "class_value";
                                   Safe.lit "value_1a"; Safe.lit "x"; Safe.lit "x_attribute"].
